@@ -91,6 +91,7 @@ class Ctx(object):
     self.vio_per_key = collections.Counter()
     self.flags = {}
     self.t0 = time.time()
+    self.cpu0 = time.process_time()
     self.soft_s = soft_s
     self.truncated = False
     self.notes = []
@@ -112,7 +113,13 @@ class Ctx(object):
     return (total + self.nshards - 1) // self.nshards
 
   def out_of_time(self):
-    return self.soft_s is not None and time.time() - self.t0 > self.soft_s
+    # The soft budget is CPU time of this shard, so that what a run covers does
+    # not depend on how loaded the machine is; wall-clock time is only a
+    # generous backstop (sleeping / blocked workloads).
+    if self.soft_s is None:
+      return False
+    return (time.process_time() - self.cpu0 > self.soft_s or
+            time.time() - self.t0 > 4 * self.soft_s)
 
   def loop(self, quick, thorough, min_frac=0.0):
     """Indices 0..share-1 of this shard's part of a random-case budget.
